@@ -88,4 +88,30 @@ mod verif_c15_loader_wit {
         }
         let _ = std::fs::remove_dir_all(&dir);
     }
+
+    /// C15 ("each vertex has the listed coordinates"): the vertex file's columns are found by NAME, whatever their order
+    #[test]
+    fn c15_wit_vertex_columns_in_any_order() {
+        let dir = std::env::temp_dir().join(format!("verif_c15c_{}", std::process::id()));
+        std::fs::create_dir_all(&dir).unwrap();
+        let e_txt = "edge_id,src_vertex_id,dst_vertex_id,distance\n0,0,1,10.0\n1,1,2,10.0";
+        for (k, header) in ["vertex_id,x,y", "vertex_id,y,x", "y,vertex_id,x", "x,y,vertex_id"].iter().enumerate() {
+            let cols: Vec<&str> = header.split(',').collect();
+            let mut v_txt = String::from(*header);
+            for v in 0..3 {
+                let (x, y) = (-105.0 + v as f64 * 0.5, 39.0 + v as f64 * 0.25);
+                let row: Vec<String> = cols.iter().map(|c| match *c { "vertex_id" => format!("{}", v), "x" => format!("{}", x), _ => format!("{}", y) }).collect();
+                v_txt.push_str(&format!("\n{}", row.join(",")));
+            }
+            let (ep, vp) = (dir.join(format!("e{}.csv", k)), dir.join(format!("v{}.csv", k)));
+            write_plain(&ep, e_txt); write_plain(&vp, &v_txt);
+            let g = graph_from_files(&ep, &vp, None, None, None).unwrap_or_else(|e| panic!("header `{}`: load failed: {}", header, e));
+            for v in 0..3 {
+                let vx = g.get_vertex(&crate::model::network::VertexId(v)).unwrap();
+                let (x, y) = (-105.0 + v as f64 * 0.5, 39.0 + v as f64 * 0.25);
+                assert!((vx.x() as f64 - x).abs() < 1e-4 && (vx.y() as f64 - y).abs() < 1e-4, "header `{}`: vertex {} has coordinates ({}, {}), listed ({}, {})", header, v, vx.x(), vx.y(), x, y);
+            }
+        }
+        let _ = std::fs::remove_dir_all(&dir);
+    }
 }
